@@ -424,7 +424,7 @@ def C07():
                      "documents: first / last page border only on the first / last section (unit MultiSection); the component override computed by the processor (_apply_footnote_source_borders) reaches the "
                      "footnote/source emitters through render (unit RenderPage) and is applied on a copy (units EncodeFootnote/EncodeSource)"],
         replayers={"pagination/processor.py::": D("borders"), "encoding/renderer.py::PageRenderer._render_column_headers": D("borders"),
-                   "services/encoding_service.py::": D("borders"), "encoding/unified_encoder.py::": D("borders")}, design_ref="4/C07")
+                   "services/encoding_service.py::": D("borders"), "encoding/unified_encoder.py::": D("borders"), "attributes.py::": D("borders")}, design_ref="4/C07")
 
 
 def C09():
